@@ -9,7 +9,7 @@ ops
   setCoords m C*m | setWeights V | setCharges m V*m
   writeCoords i C | writeCharges i V | writeAtom i a V | writeCharge i a x
   read i | slice a b c ('-' = omitted) | dump i | serialise | iterNew | iterNext k | loop | nestedLoop
-  ctorCopyKw | swap k (the k-th other live ensemble becomes the current one) | iterNextKeep k | loopKeep
+  reload (continue with the ensemble read back from a library) | ctorCopyKw | swap k (the k-th other live ensemble becomes the current one) | iterNextKeep k | loopKeep
   readKept j | writeKept j C | dumpKept j   (conformer objects kept from iterations, used later)
 response: per op  <out>@<nA>,<len coords>,<len charges>,<len weights>,<rect 0|1>  joined by ';', then
   ';state ' + the three arrays + ' || others n' + (' || state …' of every other live ensemble)
@@ -139,6 +139,7 @@ def parseOp (s : String) : Option Op :=
   | ["loop"] => some .loop
   | ["nestedLoop"] => some .nestedLoop
   | ["ctorCopyKw"] => some .ctorCopyKw
+  | ["reload"] => some .reload
   | ["loopKeep"] => some .loopKeep
   | "swap" :: ts => do let (k, t1) ← pNat ts; if t1.isEmpty then pure (.swap k) else none
   | "iterNextKeep" :: ts => do let (k, t1) ← pNat ts; if t1.isEmpty then pure (.iterNextKeep k) else none
